@@ -94,7 +94,7 @@ func (e *Engine) report(prop, tier string, seed int, groups []*groupResult, miss
 	}
 	exit := 0
 	var violLines []string
-	replayDir := filepath.Join(verif, "replays", prop)
+	replayDir := filepath.Join(*flagOut, "replays", prop)
 	for _, m := range missing {
 		_ = os.MkdirAll(replayDir, 0o755)
 		p := filepath.Join(replayDir, sanitize(truncate(m, 80))+".json")
@@ -208,8 +208,8 @@ func (e *Engine) report(prop, tier string, seed int, groups []*groupResult, miss
 				"Obligations that share a name are the same obligation reached on different paths and are all required to be unsat.",
 		},
 	}
-	_ = os.MkdirAll(filepath.Join(verif, "evidence"), 0o755)
-	writeJSON(filepath.Join(verif, "evidence", prop+".json"), ev)
+	_ = os.MkdirAll(filepath.Join(*flagOut, "evidence"), 0o755)
+	writeJSON(filepath.Join(*flagOut, "evidence", prop+".json"), ev)
 	fmt.Printf("govc: property %s tier %s: %d obligations, %d discharged (%d syntactically), %d failing, %d known findings, %d queries, %d/%d covers, %.1fs\n",
 		prop, tier, total, discharged, trivial, len(failed)+len(missing), len(knownHit), queries, coversOK, covers, wall)
 	return exit
